@@ -68,6 +68,21 @@ pub fn compare(ctx: &Ctx, prog: &[S], opts: &CmpOpts) -> Outcome {
             if real.out.len() < rf.out.len() || real.out[..rf.out.len()] != rf.out[..] {
                 return mk("output-differs-before-unspecified-point", json!(why));
             }
+            if why.ends_with("before declaration executed") {
+                // The reference stopped where a variable of the *current* activation is used
+                // before its declaration has run (a hoisted function was called early). What
+                // must not happen (C04): carrying on with the same-named variable of another
+                // activation. The implementation's own convention, also at top level where no
+                // other activation exists, is the run-time error below.
+                let uninit = {
+                    use naijascript::diagnostics::AsStr;
+                    naijascript::runtime::RuntimeErrorKind::UninitializedVariable.as_str()
+                };
+                if real.out.len() != rf.out.len() || !matches!(&real.end, End::RuntimeError(m) if m == uninit) {
+                    return mk("use-before-declaration-continues-with-another-binding", json!(why));
+                }
+                return Outcome::ok("agree:error(use before declaration)", true);
+            }
             if *why == refsem::DEEP {
                 let stack = refsem::err_kinds().stack;
                 if !matches!(&real.end, End::RuntimeError(m) if m == stack) {
